@@ -1075,8 +1075,8 @@ fn replay_none(_: Value) -> CaseResult {
 pub fn property() -> Property {
     Property {
         id: "C05",
-        level: "randomized differential exploration: every row of a table of ~180 public fallible operations (exact count in the evidence note `api_rows`) is called with limit-biased arguments in two builds of the same harness (debug assertions + overflow checks on / release) and must not panic in either, must return in-range values and must return the same answer in both",
-        rule: "a case is non-trivial when an argument it actually read is at or next to a limit of its type (year +-9998/9999, first/last ns of the day, within 2 days of Timestamp::MIN/MAX, a span unit at its limit, i64/i32/i16/i8 MIN/MAX, offset +-93598/93599, increment <= 0 or i64::MAX, non-finite or >= 2^63 float) or the call returned Err or panicked",
+        level: "exploration",
+        rule: "cases: (row of the API table of ~180 public fallible operations, limit-biased argument record), evaluated in the dbg build and in a child process of the rel build; a case is non-trivial when an argument it actually read is at or next to a limit of its type (year +-9998/9999, first/last ns of the day, within 2 days of Timestamp::MIN/MAX, a span unit at its limit, i64/i32/i16/i8 MIN/MAX, offset +-93598/93599, increment <= 0 or i64::MAX, non-finite or >= 2^63 float) or the call returned Err or panicked",
         assumptions: &[
             "the `dbg` profile (opt-level 2, debug-assertions and overflow-checks on) stands for 'with debug assertions', the `rel` profile for 'without'; both build /repo's working tree",
             "which of Ok/Err is correct is decided by C06..C12, not here",
